@@ -80,7 +80,8 @@ TBurst ==
 
 \* a look at the rows of the database file
 RowsBad(R) ==
-  IF ~ R.ok THEN "unplayable: the database file could not be read"
+  IF R.corrupt THEN "the database file is corrupted"
+  ELSE IF ~ R.ok THEN "unplayable: the database file could not be read"
   ELSE IF ~ Whole(R) THEN "a stored entity is not whole (half of a request took effect)"
   ELSE IF \E p \in Promises : ~ MaybeResolved(R, p) THEN "a request in flight at the crash took effect in part"
   ELSE IF \E p \in Promises : ~ PromiseAsAcked(R, p) THEN "an acknowledged write is not in the database as acknowledged"
@@ -129,7 +130,8 @@ TSpec == TInit /\ [][TNext]_tvars
 C06_AckedSurvives == bad \notin {"an acknowledged write is not in the database as acknowledged", "an acknowledged write is not returned as acknowledged",
                                  "a promise that was never acknowledged is returned"}
 \* a request in flight at the crash has taken effect completely or not at all
-C06_AllOrNothing == bad \notin {"a stored entity is not whole (half of a request took effect)", "a request in flight at the crash took effect in part"}
+C06_AllOrNothing == bad \notin {"a stored entity is not whole (half of a request took effect)", "a request in flight at the crash took effect in part",
+                                "the database file is corrupted"}
 \* the server restarts on its database, also after crashes during recovery, and stops on SIGTERM
 C06_Restarts == bad \notin {"the server did not come back on its database", "the server did not stop on SIGTERM", "the server died", "the server panicked"}
 \* background processing resumes from the stored state
